@@ -117,11 +117,36 @@ def shapes(mm, vse, alt, k):
         t = mm.aliases[t["name"]]["type"]
         hops += 1
     if t["kind"] == "array":
-        elems = [v for c, v in vse.enum(t["element"], 1)][:40]
+        all_elems = [v for c, v in vse.enum(t["element"], 1)]
+        for a in all_elems:
+            add("single", [a])
+        # pairs: elements with a structural deviation first (enum/primitive variations rarely interact)
+        elems = _diverse(all_elems, 40)
         for a in elems:
             for b in elems:
                 add("pair", [a, b])
     return out
+
+
+def _diverse(values, n):
+    """At most n values, preferring distinct key sets / shapes over value variations of the same shape."""
+    seen, first, rest = set(), [], []
+    for v in values:
+        sig = _shape_sig(v)
+        if sig in seen:
+            rest.append(v)
+        else:
+            seen.add(sig)
+            first.append(v)
+    return (first + rest)[:n]
+
+
+def _shape_sig(v, depth=0):
+    if isinstance(v, dict):
+        return "{" + ",".join("%s:%s" % (k, _shape_sig(x, depth + 1) if depth < 2 else "") for k, x in sorted(v.items())) + "}"
+    if isinstance(v, list):
+        return "[" + ",".join(_shape_sig(x, depth + 1) for x in v[:2]) + "]"
+    return type(v).__name__
 
 
 def roots_for_site(mm, ok, on, path):
